@@ -39,6 +39,15 @@ var panicRe = regexp.MustCompile(`(?m)^(panic:|fatal error:|goroutine \d+ \[|run
 
 // BaseEnv is the fixed environment given to every run.
 func BaseEnv() []string {
+	env := baseEnv()
+	// coverage runs (tools/coverage.sh) build knut with -cover; pass the output directory on
+	if d := os.Getenv("GOCOVERDIR"); d != "" {
+		env = append(env, "GOCOVERDIR="+d)
+	}
+	return env
+}
+
+func baseEnv() []string {
 	return []string{
 		"PATH=/usr/local/sbin:/usr/local/bin:/usr/sbin:/usr/bin:/sbin:/bin",
 		"HOME=/nonexistent",
